@@ -84,3 +84,17 @@ func encodeRulesSemi(rs aa.Rules) string {
 	}
 	return strings.Join(out, "\n")
 }
+
+func init() {
+	// fromlog <k=v;k=v;...>  ->  ok <flags> <rule> <rule>... | panic
+	suites["fromlog"] = func(f []string) string {
+		log := map[string]string{}
+		for _, kv := range unescListRaw(f[0]) {
+			k, v, _ := strings.Cut(kv, "=")
+			log[k] = v
+		}
+		p := &aa.Profile{}
+		p.AddRule(log)
+		return "ok\t" + esc(strings.Join(p.Flags, ",")) + "\t" + encodeRules(p.Rules)
+	}
+}
